@@ -71,6 +71,8 @@ func linesPublishedBlanked(c *Ctx, rule string, rnl *FuncInfo) {
 
 func runC10(c *Ctx) {
 	c10Prog = c.P
+	defer c07EveryCommentStringParsed(c, "C10-R2")
+	defer pureClosure(c, "C10-R1", "parsing a file keeps no package-level state", "Parser.Parse", "a content reader (or any other parsing state) that is reused for the next file carries exclusion state over: an unterminated ignore/begin in one file silently excludes text of the next", "internal/parser.Parser.Parse")
 	defer c10ReadConsumes(c, "C10-R1")
 	p := c.P
 	c.Rule("C10-R1", "comments parsed and excluded text blanked before a line is published; writers of the line buffer", 6)
